@@ -614,6 +614,11 @@ func runBARRIER(c *Ctx) {
 							}
 							if call, ok := f.Cond.(*ssa.Call); ok {
 								if h := calleeOrClosure(&call.Call); h != nil && isBody[h] && returnsCellTest(h, isE) {
+									// the helper's answer is a nil test of the cell: as above, the recording may require the
+									// cell to be nil still, never to be non-nil already
+									if tnn, ok := cellTestPolarity(h, isE); ok && f.Truth == tnn {
+										return false
+									}
 									continue
 								}
 							}
@@ -651,6 +656,100 @@ func runBARRIER(c *Ctx) {
 									c.OK(P.InstrPos(ci), "(6) worker records the queued closure's error", "passes "+call.Name()+"'s non-nil result to "+ir.FuncName(fn)+", which stores it into the error cell", false)
 								}
 							}
+						}
+					}
+				}
+			}
+		}
+	}
+	// (11) no call made with the mutex held runs code that locks the same mutex again (sync.Mutex is not reentrant:
+	// the worker blocks on itself, never calls Done, and Wait never returns)
+	locksMutex := map[*ssa.Function]string{}
+	for fn := range isBody {
+		for _, ci := range CallsOf(fn) {
+			if mv, ok := syncCall(ci, "Mutex", "Lock"); ok {
+				locksMutex[fn] = objKey(mv)
+			}
+		}
+	}
+	for fn := range isBody {
+		for _, ci := range CallsOf(fn) {
+			call, isCall := ci.(*ssa.Call)
+			if !isCall {
+				continue
+			}
+			h := calleeOrClosure(&call.Call)
+			if h == nil || locksMutex[h] == "" {
+				continue
+			}
+			heldKey := ""
+			held := ir.FlowHeld(call,
+				func(i ssa.Instruction) bool {
+					c2, ok := i.(*ssa.Call)
+					if !ok {
+						return false
+					}
+					mv, ok := syncCall(c2, "Mutex", "Lock")
+					if ok {
+						heldKey = objKey(mv)
+					}
+					return ok
+				},
+				func(i ssa.Instruction) bool {
+					c2, ok := i.(*ssa.Call)
+					if !ok {
+						return false
+					}
+					_, ok = syncCall(c2, "Mutex", "Unlock")
+					return ok
+				})
+			mayHold := held
+			if !mayHold {
+				// held on some path is enough for a deadlock: may-analysis over the same events
+				mayHold = mayHeldAt(call)
+			}
+			if mayHold && (heldKey == "" || heldKey == locksMutex[h]) {
+				c.Violation(fn, P.InstrPos(call), "mutex locked again while held", "the call runs "+ir.FuncName(h)+", which locks the mutex guarding the first-error variable, at a point where this goroutine already holds it: sync.Mutex is not reentrant, the worker blocks on itself, wg.Done is never reached and MakeRoot hangs on the first failing store")
+			} else {
+				c.OK(P.InstrPos(call), "(11) call of "+ir.FuncName(h)+" (locks the mutex)", "made with the mutex released", false)
+			}
+		}
+	}
+	// (12) the dispatcher leaves its receive loop only when the queue is closed: any other exit stops the receiving
+	// while the node store may still be sending on the unbuffered queue, which then blocks for ever
+	for fn := range isBody {
+		for _, b := range fn.Blocks {
+			for _, ins := range b.Instrs {
+				recv, ok := ins.(*ssa.UnOp)
+				if !ok || recv.Op != token.ARROW || objKey(recv.X) != qkey || !inCycle(b) {
+					continue
+				}
+				// exits of the cycle
+				for _, cb := range fn.Blocks {
+					if !inCycle(cb) || !ir.ReachableFrom(b, nil)[cb] || !ir.ReachableFrom(cb, nil)[b] {
+						continue
+					}
+					for si, sb := range cb.Succs {
+						if ir.ReachableFrom(sb, nil)[b] {
+							continue // stays in the loop
+						}
+						okExit := false
+						if iff, isIf := cb.Instrs[len(cb.Instrs)-1].(*ssa.If); isIf {
+							if tv, tnn, isNil := ir.NilTest(iff.Cond); isNil && ir.ResolveCell(tv) == ssa.Value(recv) {
+								// the nil edge: si == 0 is the true edge
+								if (si == 0) != tnn {
+									okExit = true
+								}
+							}
+							if ex, isEx := iff.Cond.(*ssa.Extract); isEx && ex.Tuple == ssa.Value(recv) && ex.Index == 1 && si == 1 {
+								okExit = true // v, ok := <-q; !ok
+							}
+						}
+						if okExit {
+							c.OK(P.InstrPos(cb.Instrs[len(cb.Instrs)-1]), "(12) dispatcher leaves its loop", "only when the queue was closed", false)
+						} else {
+							c.Violation(fn, P.InstrPos(cb.Instrs[len(cb.Instrs)-1]), "dispatcher stops receiving before the queue is closed",
+								"the goroutine that receives the queued writes can leave its loop for another reason than the closed queue (e.g. once a store has failed): the tree walk is still sending on the unbuffered queue and blocks for ever, so MakeRoot hangs instead of reporting the error")
 						}
 					}
 				}
@@ -891,6 +990,30 @@ func (sh *flushShape) errKey() string {
 	return ekey
 }
 
+// cellTestPolarity: for a helper accepted by returnsCellTest, whether its answer true means "the cell is non-nil";
+// ok is false when its returns disagree.
+func cellTestPolarity(h *ssa.Function, isE func(ssa.Value) bool) (trueMeansNonNil bool, ok bool) {
+	first := true
+	for _, r := range ir.Returns(h) {
+		if len(r.Block().Preds) == 0 && r.Block().Index != 0 {
+			continue
+		}
+		if len(r.Results) != 1 {
+			return false, false
+		}
+		_, tnn, isNil := ir.NilTest(ir.ResolveCell(r.Results[0]))
+		if !isNil {
+			return false, false
+		}
+		if first {
+			trueMeansNonNil, first = tnn, false
+		} else if tnn != trueMeansNonNil {
+			return false, false
+		}
+	}
+	return trueMeansNonNil, !first
+}
+
 // returnsCellTest: every return of h yields a nil test of the error cell (storeFailed()).
 func returnsCellTest(h *ssa.Function, isE func(ssa.Value) bool) bool {
 	rets := ir.Returns(h)
@@ -913,4 +1036,42 @@ func returnsCellTest(h *ssa.Function, isE func(ssa.Value) bool) bool {
 		n++
 	}
 	return n > 0
+}
+
+// mayHeldAt: on some path to ins a sync.Mutex Lock is not followed by an Unlock (may-dataflow).
+func mayHeldAt(ins ssa.Instruction) bool {
+	fn := ins.Parent()
+	n := len(fn.Blocks)
+	in, out := make([]bool, n), make([]bool, n)
+	step := func(b *ssa.BasicBlock, st bool, upto ssa.Instruction) bool {
+		for _, i := range b.Instrs {
+			if i == upto {
+				break
+			}
+			if ci, ok := i.(*ssa.Call); ok {
+				if _, ok := syncCall(ci, "Mutex", "Lock"); ok {
+					st = true
+				}
+				if _, ok := syncCall(ci, "Mutex", "Unlock"); ok {
+					st = false
+				}
+			}
+		}
+		return st
+	}
+	for changed := true; changed; {
+		changed = false
+		for _, b := range fn.Blocks {
+			v := false
+			for _, p := range b.Preds {
+				v = v || out[p.Index]
+			}
+			o := step(b, v, nil)
+			if v != in[b.Index] || o != out[b.Index] {
+				in[b.Index], out[b.Index] = v, o
+				changed = true
+			}
+		}
+	}
+	return step(ins.Block(), in[ins.Block().Index], ins)
 }
